@@ -36,13 +36,30 @@ namespace gpuemu {
 // it does not compile against this minimal stub.
 #ifdef GPUEMU_WORKGROUP
 // a __shared__ variable declared in a kernel: one instance for the group that is running
+#ifdef GPUEMU_RACE
+#define __shared__ static __attribute__((section("gpuemu_shared")))
+#else
 #define __shared__ static
-#define __syncwarp() ((void) 0)
+#endif
+// __syncwarp(): all threads of a warp (32 consecutive threads of the block).  Modelled only for blocks of at
+// most one warp, where it is the block barrier; refused otherwise.
+namespace gpuemu {
+  inline void cudaSyncWarp() {
+    const WorkItem &w = cur();
+    if (w.lsize[0] * w.lsize[1] * w.lsize[2] > 32) {
+      throw launch_error("__syncwarp() in a block of more than one warp is not modelled");
+    }
+    barrier();
+  }
+}
+#define __syncwarp() gpuemu::cudaSyncWarp()
+// memory fences order memory accesses of the calling thread; they do not synchronise execution
+inline void __threadfence_block() {}
+inline void __threadfence() {}
 // Atomic functions with the signatures of the CUDA C++ Programming Guide (B.14), nothing else: a
-// translation calling them with other argument lists does not compile.  Work-items are only
-// interleaved at barriers, so the plain read-modify-write below is atomic in this model.
+// translation calling them with other argument lists does not compile.
 #define GPUEMU_ATOMIC_RMW(T, name, expr) \
-  inline T name(T *address, T val) { const T old = *address; *address = (T) (expr); return old; }
+  inline T name(T *address, T val) { return gpuemu::atomicRmw(address, [=](T old) { return (T) (expr); }); }
 GPUEMU_ATOMIC_RMW(int, atomicAdd, (unsigned int) old + (unsigned int) val)
 GPUEMU_ATOMIC_RMW(unsigned int, atomicAdd, old + val)
 GPUEMU_ATOMIC_RMW(unsigned long long, atomicAdd, old + val)
